@@ -112,6 +112,8 @@ def do_mmdb(req):
     from proof_generation.metamath import metamath_extract_slice as S
     out = {'out': 'ok'}
     try:
+        for t in req.get('pre', ()):          # history: other databases handled earlier by the same process
+            parse_database(t)
         db = parse_database(req['text'])
         out['ast'] = db_json(db)
         text2 = Encoder.encode_string(db)
